@@ -11,10 +11,15 @@ def sh(cmd, cwd=None, env=None, timeout=3600):
     r = subprocess.run(cmd, shell=True, cwd=cwd, env=env, capture_output=True, text=True, timeout=timeout)
     return r.returncode, (r.stdout + r.stderr)
 
+CHECKS_ONLY = False
+
+
 def one(path):
     P, mk = path.split('/')[-2], path.split('/')[-1]
     tag = f"{P}_{mk}"
     res = {"id": tag, "property": P, "src": path}
+    if CHECKS_ONLY and os.path.exists(f"{OUT}/{tag}.json"):
+        res = json.load(open(f"{OUT}/{tag}.json"))
     patch = os.path.join(path, 'patch.diff')
     if os.path.exists(os.path.join(path, 'patch_rebased.diff')):
         patch = os.path.join(path, 'patch_rebased.diff')
@@ -27,21 +32,23 @@ def one(path):
         if rc != 0:
             res["apply_error"] = out[-400:]
             return res
-        rc, out = sh(f"/venv/bin/python {path}/demo.py", cwd=wt, env=env, timeout=1200)
-        res["demo_clean_rc"] = rc; res["demo_clean_tail"] = out[-300:]
+        if not CHECKS_ONLY:
+            rc, out = sh(f"/venv/bin/python {path}/demo.py", cwd=wt, env=env, timeout=1200)
+            res["demo_clean_rc"] = rc; res["demo_clean_tail"] = out[-300:]
         sh(f"git apply {patch}", cwd=wt)
-        rc, out = sh(f"/venv/bin/python {path}/demo.py", cwd=wt, env=env, timeout=1200)
-        res["demo_mutant_rc"] = rc; res["demo_mutant_tail"] = out[-400:]
-        xml = f"{OUT}/{tag}.xml"
-        sh(f"/venv/bin/python -m pytest -q -p no:cacheprovider --timeout=900 --continue-on-collection-errors -n 4 --junitxml={xml}", cwd=wt, env=env, timeout=3000)
-        ok = set()
-        try:
-            for tc in ET.parse(xml).getroot().iter('testcase'):
-                if not any(c.tag in ('failure', 'error', 'skipped') for c in tc):
-                    ok.add(tc.get('classname') + '::' + tc.get('name'))
-        except Exception as e:
-            res["suite_error"] = str(e)
-        res["baseline_pass"] = len(ok & BASE); res["baseline_missing"] = sorted(BASE - ok)[:5]
+        if not CHECKS_ONLY:
+            rc, out = sh(f"/venv/bin/python {path}/demo.py", cwd=wt, env=env, timeout=1200)
+            res["demo_mutant_rc"] = rc; res["demo_mutant_tail"] = out[-400:]
+            xml = f"{OUT}/{tag}.xml"
+            sh(f"/venv/bin/python -m pytest -q -p no:cacheprovider --timeout=900 --continue-on-collection-errors -n 4 --junitxml={xml}", cwd=wt, env=env, timeout=3000)
+            ok = set()
+            try:
+                for tc in ET.parse(xml).getroot().iter('testcase'):
+                    if not any(c.tag in ('failure', 'error', 'skipped') for c in tc):
+                        ok.add(tc.get('classname') + '::' + tc.get('name'))
+            except Exception as e:
+                res["suite_error"] = str(e)
+            res["baseline_pass"] = len(ok & BASE); res["baseline_missing"] = sorted(BASE - ok)[:5]
         fired = {}
         for i in range(1, 21):
             pid = f"C{i:02d}"
@@ -58,9 +65,12 @@ def one(path):
     return res
 
 if __name__ == "__main__":
+    if "--checks-only" in sys.argv:
+        CHECKS_ONLY = True
+        sys.argv.remove("--checks-only")
     props = sys.argv[1:] or [f"C{i:02d}" for i in range(1, 21)]
     paths = sorted(p for P in props for p in glob.glob(f"/tmp/mut/out/{P}/m*") if os.path.isdir(p))
-    with ThreadPoolExecutor(5) as ex:
+    with ThreadPoolExecutor(12 if CHECKS_ONLY else 5) as ex:
         for r in ex.map(one, paths):
             print(r["id"], "applies" if r.get("applies") else "NOAPPLY", "clean", r.get("demo_clean_rc"), "mut", r.get("demo_mutant_rc"),
                   "base", r.get("baseline_pass"), "fired", sorted((r.get("checks_fired") or {}).keys()), flush=True)
